@@ -34,6 +34,9 @@ type compiler struct {
 	program *ast.Program
 	curStmt ast.Statement
 	inCheck bool
+	// loopControl is a break or continue that a helper's block has run into
+	// while the current statement was evaluated
+	loopControl exitBlockStatment
 }
 
 func (c *compiler) compile() (string, error) {
@@ -1254,6 +1257,23 @@ func (c *compiler) evalBlockStatement(node *ast.BlockStatement) (interface{}, er
 		i, err := c.evalStatement(s)
 		if err != nil {
 			return nil, err
+		}
+
+		if ctl := c.loopControl; ctl != nil {
+			c.loopControl = nil
+			if _, exits := i.(exitBlockStatment); !exits {
+				// the statement's own value is what the iteration keeps
+				var kept []interface{}
+				if i != nil {
+					kept = []interface{}{i}
+				}
+				switch ctl.(type) {
+				case continueObject:
+					i = continueObject{Value: kept}
+				case breakObject:
+					i = breakObject{Value: kept}
+				}
+			}
 		}
 
 		val, exitBlock := i.(exitBlockStatment)
